@@ -149,9 +149,9 @@ def calcFixed (a : Auction) (bids : List Bid) : MInfo :=
     refund := []
     matchedIds := bids.map (·.id) }
 
-/-- `CalculateBatchAllocation` without its store writes; `none` = Go panics -/
-def calcBatch (a : Auction) (bids : List Bid) (allowed : List Allowed) : Option MInfo :=
-  let sorted := sortBids bids
+/-- `CalculateBatchAllocation` without its store writes, given the arrangement `sorted`
+    that `SortBids` produced; `none` = Go panics -/
+def calcBatchWith (sorted : List Bid) (a : Auction) (bids : List Bid) (allowed : List Allowed) : Option MInfo :=
   let prices := distinctPrices sorted
   let n := prices.length
   let f := fun (h : Nat) => matchAt (prices.getD (n - 1 - h) 0) sorted a.sellAmt allowed
@@ -173,5 +173,9 @@ def calcBatch (a : Auction) (bids : List Bid) (allowed : List Allowed) : Option 
              alloc := bidders.map (fun u => (u, acc.alloc u))
              refund := bidders.map (fun u => (u, reserved u - acc.pay u))
              matchedIds := acc.matched.map (·.id) }
+
+/-- `CalculateBatchAllocation` with the arrangement of the executable model -/
+def calcBatch (a : Auction) (bids : List Bid) (allowed : List Allowed) : Option MInfo :=
+  calcBatchWith (sortBids bids) a bids allowed
 
 end Fundraising
